@@ -150,4 +150,25 @@ example : Reach (runOps [] [.create [117] [99] [103], .create [117] [100] [104]]
   refine Reach.down (n := { kind := .user, id := [117], subs := [joinKey [[117], [99]], joinKey [[117], [100]]], revoked := false }) (by decide +kernel) (by decide +kernel) (s := joinKey [[117], [100]]) (by decide +kernel) ?_
   refine Reach.down (n := { kind := .client, id := [100], subs := [joinKey [[117], [100], [104]]], revoked := false }) (by decide +kernel) (by decide +kernel) (s := joinKey [[117], [100], [104]]) (by decide +kernel) (Reach.self _)
 
+/-- **a removed node takes its whole subtree with it**: when `delete_sub_tree(key)` completes, nothing is stored any more under the key
+    or under any key below it through `subordinate` links, at any depth — also when branches share nodes -/
+theorem deleted_subtree_is_gone (db : DB) (key : Str) (db' : DB) (h : step db (.deleteSub key) = some db') (x : Str) (hx : Reach db key x) :
+    lookup db' x = none :=
+  deleteSubTree_covers _ db db key db' (Sub.refl _) h x hx
+
+/-- … **and nothing else**: every node that is not at or below the deleted one is exactly as it was -/
+theorem subtree_deletion_is_local (db : DB) (key : Str) (db' : DB) (h : step db (.deleteSub key) = some db') (x : Str) (hx : ¬ Reach db key x) :
+    lookup db' x = lookup db x :=
+  deleteSubTree_local _ db key db' h x hx
+
+/-- the same for `Database.delete([user])` — removing a user: the whole branch goes, no other user's branch is touched -/
+theorem deleted_user_is_gone (db : DB) (u : Str) (db' : DB) (hk : hasKey db u = true) (h : step db (.delete [u]) = some db') (x : Str) :
+    (Reach db u x → lookup db' x = none) ∧ (¬ Reach db u x → lookup db' x = lookup db x) := by
+  simp only [step, delete, hk, not_true_eq_false, if_false, List.length_singleton, if_true] at h
+  exact ⟨deleteSubTree_covers _ db db u db' (Sub.refl _) h x, deleteSubTree_local _ db u db' h x⟩
+
+/-- non-vacuity: deleting the user of the two-session database of the example above completes -/
+example : (step (runOps [] [.create [117] [99] [103], .create [117] [100] [104]]) (.delete [[117]])).isSome = true := by decide +kernel
+example : hasKey (runOps [] [.create [117] [99] [103], .create [117] [100] [104]]) [117] = true := by decide +kernel
+
 end Idpy.Props.C14
